@@ -1,10 +1,186 @@
 /-
-  TwProofs.C11 — property theorems (see DESIGN.md, section 6).
+  TwProofs.C11 — built-in functions: contracts that hold for every receiver and argument list.
+
+  The built-ins of the model (`TwModel.Builtins`, tied to evaluator/*_func.go by the
+  correspondence check over the full name × receiver × argument cross product) are total, pure
+  functions of their receiver and arguments — there is no state they could change.  What the
+  theorems add are the laws no finite table of cases settles: every character-level function
+  returns valid UTF-8 for valid (and, where it re-encodes, for any) input; `slice` never leaves
+  the array; `append` / `prepend` / `reverse` are extensions and permutations; `then` / `binary`
+  select by the receiver's truth.
 -/
 import TwModel
 import TwSpec
+import TwProofs.Lemmas.Utf8Valid
 
 namespace Tw.C11
 open Tw
+
+/-! ### UTF-8 -/
+
+/-- re-encoding functions return valid UTF-8 for *every* input (invalid bytes become U+FFFD) -/
+theorem upper_lower_reverse_valid (s : Bytes) :
+    validUtf8 (toUpper s) = true ∧ validUtf8 (toLower s) = true ∧ validUtf8 (encodeRunes (decodeRunes s).reverse) = true :=
+  ⟨validUtf8_encodeRunes _, validUtf8_encodeRunes _, validUtf8_encodeRunes _⟩
+
+/-- `at` / `first` / `last`: nil, or one whole character -/
+theorem at_returns_one_character (s : Bytes) (i : Int) : strAt s i = .nil ∨ ∃ r, strAt s i = .str (encodeRune r) := by
+  unfold strAt
+  simp only []
+  by_cases h1 : (decodeRunes s).isEmpty = true
+  · left; simp [h1]
+  · simp only [h1, Bool.false_eq_true, if_false]
+    generalize (if i < 0 then ((decodeRunes s).length : Int) + i else i) = j
+    split
+    · left; rfl
+    · right; exact ⟨_, rfl⟩
+
+theorem at_valid (s : Bytes) (i : Int) (v : Bytes) (h : strAt s i = .str v) : validUtf8 v = true := by
+  rcases at_returns_one_character s i with h1 | ⟨r, h1⟩
+  · rw [h1] at h; cases h
+  · rw [h1] at h; cases h
+    have := validUtf8_encodeRunes [r]
+    simpa [encodeRunes] using this
+
+/-- `string(runes)` inverts `[]rune(s)` up to the replacement of invalid runes -/
+theorem decode_encode (r : Nat) (rest : Bytes) : decodeRune (encodeRune r ++ rest) = (normRune r, (encodeRune r).length) :=
+  decodeRune_encodeRune r rest
+
+/-- `truncate`: the receiver itself (when it is short enough), or whole characters of it followed
+    by the ellipsis — valid whenever the ellipsis is (the default "..." is) -/
+theorem truncate_valid (s e : Bytes) (k : Nat) (he : validUtf8 e = true) :
+    validUtf8 (encodeRunes ((decodeRunes s).take k) ++ e) = true :=
+  validUtf8_append _ _ (validUtf8_encodeRunes _) he
+
+theorem truncate_default_ellipsis_valid (s : Bytes) (k : Nat) :
+    validUtf8 (encodeRunes ((decodeRunes s).take k) ++ b "...") = true :=
+  truncate_valid s (b "...") k (by decide)
+
+/-- the shape `truncate` has in the model: exactly these two results -/
+theorem truncate_shape (s : Bytes) (limit : Int64) (hl : ¬ limit < 0) :
+    strBuiltin (b "truncate") s [.int limit] =
+      some (.ok (.str (if limit.toInt ≥ (decodeRunes s).length then s
+        else encodeRunes ((decodeRunes s).take limit.toInt.toNat) ++ b "..."))) := by
+  unfold strBuiltin
+  simp (config := { decide := true }) only [if_false, if_true, hl]
+  split <;> rfl
+
+/-- `capitalize` on valid UTF-8 -/
+theorem capitalize_valid (s : Bytes) (hs : validUtf8 s = true) :
+    validUtf8 (if s.isEmpty then [] else toUpper (s.take (decodeRune s).2) ++ s.drop (decodeRune s).2) = true := by
+  cases s with
+  | nil => rfl
+  | cons c t =>
+    simp only [List.isEmpty_cons, Bool.false_eq_true, if_false]
+    exact validUtf8_append _ _ (validUtf8_encodeRunes _) (validUtf8_drop_first c t hs)
+
+/-- `repeat` on valid UTF-8 -/
+theorem repeat_valid (s : Bytes) (n : Nat) (hs : validUtf8 s = true) : validUtf8 (List.replicate n s).flatten = true := by
+  induction n with
+  | zero => rfl
+  | succ n ih =>
+    rw [List.replicate_succ, List.flatten_cons]
+    exact validUtf8_append _ _ hs ih
+
+/-! ### arrays -/
+
+theorem clamp_start (len : Nat) (start : Int) :
+    0 ≤ (if start < 0 then (0 : Int) else if start > len then (len : Int) else start) ∧
+    (if start < 0 then (0 : Int) else if start > len then (len : Int) else start) ≤ len := by
+  split
+  · omega
+  · split <;> omega
+
+theorem clamp_end (len : Nat) (e : Int) :
+    0 ≤ (if (decide (e < 0) || decide (e > len)) = true then (len : Int) else e) ∧
+    (if (decide (e < 0) || decide (e > len)) = true then (len : Int) else e) ≤ len := by
+  by_cases h : e < 0 ∨ e > len
+  · have : (decide (e < 0) || decide (e > len)) = true := by simpa using h
+    simp only [this, if_true]; omega
+  · have : (decide (e < 0) || decide (e > len)) = false := by simp; omega
+    simp only [this, Bool.false_eq_true, if_false]; omega
+
+theorem clamp_order (s e1 : Int) (len : Nat) (h1 : 0 ≤ s) (h2 : s ≤ len) (h3 : 0 ≤ e1) (h4 : e1 ≤ len) :
+    s.toNat ≤ (if e1 < s then s else e1).toNat ∧ (if e1 < s then s else e1).toNat ≤ len := by
+  split <;> omega
+
+/-- `slice` clamps: the bounds it uses always satisfy `start ≤ end ≤ len` -/
+theorem slice_bounds (len : Nat) (start : Int) (endO : Option Int) :
+    (clampSlice len start endO).1 ≤ (clampSlice len start endO).2 ∧ (clampSlice len start endO).2 ≤ len := by
+  unfold clampSlice
+  obtain ⟨s1, s2⟩ := clamp_start len start
+  cases endO with
+  | none =>
+    simp only []
+    constructor <;> omega
+  | some e =>
+    obtain ⟨e1, e2⟩ := clamp_end len e
+    exact clamp_order _ _ len s1 s2 e1 e2
+
+/-- … and inside the array they are the bounds asked for -/
+theorem slice_exact (len : Nat) (s e : Nat) (h1 : s ≤ e) (h2 : e ≤ len) :
+    clampSlice len s (some e) = (s, e) := by
+  unfold clampSlice
+  simp only []
+  have a1 : ¬ ((s : Int) < 0) := by omega
+  have a2 : ¬ ((s : Int) > len) := by omega
+  have a3 : ¬ ((e : Int) < 0 ∨ len < e) := by omega
+  have a4 : ¬ ((e : Int) < s) := by omega
+  simp [a1, a2, a3, a4]
+
+theorem slice_is_sublist (xs : List Val) (s e : Nat) : ((xs.take e).drop s).Sublist xs :=
+  (List.drop_sublist _ _).trans (List.take_sublist _ _)
+
+/-- `reverse` is a permutation and an involution; `append` / `prepend` extend the receiver -/
+theorem reverse_perm (xs : List Val) : xs.reverse.Perm xs := List.reverse_perm xs
+theorem reverse_reverse (xs : List Val) : xs.reverse.reverse = xs := List.reverse_reverse xs
+
+theorem append_extends (xs args : List Val) (h : args ≠ []) :
+    arrBuiltin (b "append") xs args = some (.ok (.arr (xs ++ args))) := by
+  unfold arrBuiltin
+  have : args.isEmpty = false := by cases args with | nil => exact absurd rfl h | cons _ _ => rfl
+  simp (config := { decide := true }) [this]
+
+theorem prepend_extends (xs args : List Val) (h : args ≠ []) :
+    arrBuiltin (b "prepend") xs args = some (.ok (.arr (args ++ xs))) := by
+  unfold arrBuiltin
+  have : args.isEmpty = false := by cases args with | nil => exact absurd rfl h | cons _ _ => rfl
+  simp (config := { decide := true }) [this]
+
+/-- `len` of an array is its length; of a string, its number of characters -/
+theorem array_len (xs args : List Val) : arrBuiltin (b "len") xs args = some (.ok (.int (Int64.ofNat xs.length))) := by
+  unfold arrBuiltin; simp (config := { decide := true })
+
+theorem string_len_counts_characters (s : Bytes) (args : List Val) :
+    strBuiltin (b "len") s args = some (.ok (.int (Int64.ofNat (decodeRunes s).length))) := by
+  unfold strBuiltin; simp (config := { decide := true })
+
+/-! ### booleans -/
+
+theorem then_selects (v : Bool) (a : Val) (rest : List Val) :
+    boolBuiltin (b "then") v (a :: rest) = some (.ok (if v then a else rest.headD .nil)) := by
+  unfold boolBuiltin
+  cases v <;> simp (config := { decide := true })
+
+theorem binary_is_zero_or_one (v : Bool) (args : List Val) :
+    boolBuiltin (b "binary") v args = some (.ok (.int (if v then 1 else 0))) := by
+  unfold boolBuiltin; simp (config := { decide := true })
+
+/-! ### a wrong argument kind is an error, not a crash; a name that is not a built-in is `none` -/
+
+theorem wrong_kind_is_error (s : Bytes) :
+    strBuiltin (b "repeat") s [.str (b "x")] = some (.error ("ErrFuncFirstArgInt", [b "repeat", strT])) ∧
+    strBuiltin (b "at") s [.bool true] = some (.error ("ErrFuncFirstArgInt", [b "at", strT])) := by
+  constructor <;> (unfold strBuiltin; simp (config := { decide := true }))
+
+theorem unknown_name_is_none : callBuiltin (.nil) (b "len") [] = none ∧ boolBuiltin (b "nope") true [] = none := by
+  constructor
+  · rfl
+  · unfold boolBuiltin; simp (config := { decide := true })
+
+/-! ### instances through the whole pipeline -/
+
+example : (match evaluateStringPure [] (b "{{ \"żółw\".len() }}|{{ \"żółw\".reverse() }}|{{ \"żółw\".truncate(2) }}|{{ \"éa\".capitalize() }}|{{ [1,2,3,4].slice(3, 1) }}|{{ [1,2,3].slice(-5, 99) }}") [] with
+    | .ok out => out == b "4|włóż|żó...|Éa||1, 2, 3" | _ => false) = true := by decide +kernel
 
 end Tw.C11
